@@ -46,6 +46,15 @@ type c08Entry struct {
 	Writes        []string `json:"writes"`
 }
 
+// c08PtrUse: what one function does with a pointer-typed field of the struct, in source order
+// (right-hand sides before the assignment they belong to): "read", or "write-literal" (`&T{…}` /
+// `T{…}`), "write-new" (`new(T)`), "write-nil", "write-addr" (`&recv.x`), "write-other".
+type c08PtrUse struct {
+	Field  string   `json:"field"`
+	Func   string   `json:"func"`
+	Events []string `json:"events"`
+}
+
 type c08Struct struct {
 	Type         string      `json:"type"`
 	Fields       []Field     `json:"fields"`
@@ -57,6 +66,7 @@ type c08Struct struct {
 	CtorWrites   []c08W      `json:"ctor_writes"`
 	OtherWrites  []c08W      `json:"other_writes"`
 	Entries      []c08Entry  `json:"entries"`
+	PtrUses      []c08PtrUse `json:"ptr_uses"`
 }
 
 type c08Call struct {
@@ -180,6 +190,83 @@ func c08Writes(n ast.Node, roots []string, fn string, skip map[ast.Node]bool) []
 	return out
 }
 
+func c08RhsKind(e ast.Expr) string {
+	switch x := e.(type) {
+	case *ast.CompositeLit:
+		return "write-literal"
+	case *ast.UnaryExpr:
+		if x.Op == token.AND {
+			if _, ok := x.X.(*ast.CompositeLit); ok {
+				return "write-literal"
+			}
+			return "write-addr"
+		}
+	case *ast.CallExpr:
+		if id, ok := x.Fun.(*ast.Ident); ok && id.Name == "new" {
+			return "write-new"
+		}
+	case *ast.Ident:
+		if x.Name == "nil" {
+			return "write-nil"
+		}
+	}
+	return "write-other"
+}
+
+// c08PtrEvents lists the reads and writes of root.field inside body, in source order.
+func c08PtrEvents(body ast.Node, roots []string, field string) []string {
+	var evs []string
+	isField := func(e ast.Expr) bool {
+		se, ok := e.(*ast.SelectorExpr)
+		if !ok || se.Sel.Name != field {
+			return false
+		}
+		id, ok := se.X.(*ast.Ident)
+		if !ok {
+			return false
+		}
+		for _, r := range roots {
+			if id.Name == r {
+				return true
+			}
+		}
+		return false
+	}
+	var visit func(n ast.Node)
+	visit = func(n ast.Node) {
+		ast.Inspect(n, func(x ast.Node) bool {
+			switch x := x.(type) {
+			case nil:
+				return false
+			case *ast.AssignStmt:
+				for _, r := range x.Rhs {
+					visit(r)
+				}
+				for i, l := range x.Lhs {
+					if isField(l) {
+						k := "write-other"
+						if len(x.Lhs) == len(x.Rhs) && x.Tok == token.ASSIGN {
+							k = c08RhsKind(x.Rhs[i])
+						}
+						evs = append(evs, k)
+					} else {
+						visit(l)
+					}
+				}
+				return false
+			case *ast.SelectorExpr:
+				if isField(x) {
+					evs = append(evs, "read")
+					return false
+				}
+			}
+			return true
+		})
+	}
+	visit(body)
+	return evs
+}
+
 func c08FuncName(fd *ast.FuncDecl) string {
 	if fd.Recv != nil && len(fd.Recv.List) > 0 {
 		return strings.TrimPrefix(src(fd.Recv.List[0].Type), "*") + "." + fd.Name.Name
@@ -272,6 +359,25 @@ func c08StructFacts(p *pkgInfo, t string) c08Struct {
 				return true
 			})
 			roots := c08Roots(fd.Recv, fd.Type, t)
+			// function literals with their own *T parameter (option closures) use that name
+			ast.Inspect(fd.Body, func(x ast.Node) bool {
+				if fl, ok := x.(*ast.FuncLit); ok {
+					roots = append(roots, c08Roots(nil, fl.Type, t)...)
+				}
+				return true
+			})
+			if len(roots) == 0 {
+				continue
+			}
+			for _, fld := range out.Fields {
+				if !strings.HasPrefix(fld.Type, "*") {
+					continue
+				}
+				if evs := c08PtrEvents(fd.Body, roots, fld.Name); len(evs) > 0 {
+					out.PtrUses = append(out.PtrUses, c08PtrUse{fld.Name, name, evs})
+				}
+			}
+			roots = c08Roots(fd.Recv, fd.Type, t)
 			if len(roots) == 0 {
 				continue
 			}
